@@ -237,6 +237,9 @@ def _circuit_cases():
         out.append({"circuit": {"kind": "hand", "name": "param-logsoftmax", "K": 2, "axis": ax, "input": "cat-logits"}})
     for oa, ra in ((0, 1), (1, 1), (0, 0), (1, 0)):
         out.append({"circuit": {"kind": "hand", "name": "param-reducesum-outerprod", "outer": oa, "reduce": ra, "input": "embedding"}})
+    # inner node of a rewrite pattern with a second consumer (the rewrite must not fire / must keep the node)
+    out.append({"circuit": {"kind": "hand", "name": "param-shared-node", "K": 2, "which": "softmax", "input": "embedding"}, "semirings": ["sum-product"]})
+    out.append({"circuit": {"kind": "hand", "name": "param-shared-node", "K": 2, "which": "outer", "input": "embedding"}, "semirings": ["sum-product"]})
     return out
 
 
@@ -367,8 +370,8 @@ def cases(tier, seed):
             for F in (1, 2, 3):
                 out.append({"builder": n, "F": F, "fold": True})
     for i, c in enumerate(_circuit_cases()):
-        for sem in (["sum-product", "lse-sum"] if tier != "quick" else [["sum-product", "lse-sum"][i % 2]]):
-            d = dict(c)
+        for sem in c.get("semirings") or (["sum-product", "lse-sum"] if tier != "quick" else [["sum-product", "lse-sum"][i % 2]]):
+            d = {k: v for k, v in c.items() if k != "semirings"}
             d["semiring"] = sem
             out.append(d)
     return out
